@@ -33,7 +33,7 @@ type CacheScen struct {
 	Sim     SimCfg           `json:"sim"`
 }
 
-var cacheKeys = [][2]string{{"n1", "a"}, {"n1", "b"}, {"n2", "a"}}
+var cacheKeys = [][2]string{{"n1", "a"}, {"", "a"}, {"n1", "b"}, {"n2", "a"}} // "" = a cluster-scoped object (nodes have no namespace)
 var weirdVersions = []string{"", "0", "-1", "+3", "007", "abc", "9999999999999999999", "1.5", " 4"}
 
 func genSpec(rng *rand.Rand, nkeys int) world.Spec {
@@ -172,7 +172,7 @@ func genCache(g GenCtx) interface{} {
 		}
 		genCacheBulk(rng, sc)
 	} else {
-		nkeys := 1 + rng.Intn(3)
+		nkeys := 1 + rng.Intn(4)
 		n := 1 + rng.Intn(12)
 		for i := 0; i < n; i++ {
 			sc.Ops = append(sc.Ops, genCacheOp(rng, nkeys))
